@@ -133,6 +133,19 @@ func c20Session(c *Ctx, logger *rig.CapLogger, pass, kind string, capn, useSasl,
 	}
 	disc := make(chan struct{}, 4)
 	s.Conn.HandleFunc(client.DISCONNECTED, func(_ *client.Conn, l *client.Line) { disc <- struct{}{} })
+	if (failAt+len(kind))%2 == 0 {
+		// an application whose own handlers are faulty: they panic on the lifecycle events and on the first server
+		// lines, in both handler sets, and the default recovery function writes what it writes about that to the log
+		boom := func(_ *client.Conn, l *client.Line) {
+			var m map[string]int
+			m[l.Cmd]++
+		}
+		for _, ev := range []string{client.REGISTER, client.CONNECTED, client.DISCONNECTED, "001", "NOTICE", "CAP"} {
+			s.Conn.HandleFunc(ev, boom)
+			s.Conn.HandleBG(ev, client.HandlerFunc(boom))
+		}
+		c.R.Count("sessions_with_panicking_application_handlers", 1)
+	}
 	cycles := 1
 	if kind == "reconnect" || kind == "wdrop" || kind == "passwhiledown" {
 		cycles = 2
